@@ -95,3 +95,13 @@ Theorem unfinalized_set_order_refuted :
   /\ expand true [[97%N]; CLEAR] [[98%N]] = Ok [].
 Proof. exact unfinalized_set_order_refuted_proof. Qed.
 Print Assumptions unfinalized_set_order_refuted.
+
+(* domain._apply_license_filter as bound by _pkg_filters: each answer in any sequence of queries
+   against one filter is the reading of "ACCEPT_LICENSE, then the package.license entries that
+   match THIS package"; earlier queries leave no trace *)
+Theorem license_filter_is_stream : forall master entries groups qs,
+  (forall q, In q qs -> first_bad bad_license (license_stream master entries (fst q)) = None) ->
+  license_filter_seq master entries groups qs
+  = map (fun q => BOk (accepted_by_stream groups (license_stream master entries (fst q)) (snd q))) qs.
+Proof. exact license_filter_is_stream_proof. Qed.
+Print Assumptions license_filter_is_stream.
